@@ -412,7 +412,11 @@ def dtc_sources_family(ctx, rep, corr, rng):
         extra = {}
         for c, codes in chunk:
             eff = {x for x, _ in D.effective_dtcs(c.params[1].dop)}
-            extra[c.name] = [x for x in codes if x not in eff] + [0]
+            dd = c.params[1].dop
+            # raw (coded) values that are NOT described: the coded values of the document's other trouble codes, and — LINEAR — the described
+            # trouble codes themselves taken as coded values (what the unrepaired DTC-DOP encoder compared) unless their image is described
+            pre = [D.dtc_coded_of_code(dd, x) for x in codes if x not in eff] + [x for x in sorted(eff) if not isinstance(dd.compu, D.Identical)]
+            extra[c.name] = [x for x in pre if x is not None and 0 <= x < (1 << dd.dct.bitlen) and D.dtc_code_of_coded(dd, x) not in eff] + [0]
             ctx.histo("dtc_source_shape", next(iter(c.meta)).split(":", 1)[1])
         wire_family(ctx, rep, corr, [c for c, _ in chunk], "wire-enum-dtc-sources", rng, 40, only={("d",)}, extra_raws=extra)
         # the model is handed the flattened DTC list (D.effective_dtcs): tie it to what the loaded DTC-DOP describes
